@@ -313,7 +313,11 @@ def fold_monitor(res, mon, base):
     for s, c in mon.shape_fail.items():
         res.count("shape_fail_" + s, c)
     if mon.stopped:
-        res.count("stopped_runs")
+        # the short chains on small dense networks are cut off on purpose after 3 000 proposals (only their first swaps are judged): they
+        # are counted apart and do not enter the budget-stop fraction that makes a run inconclusive
+        res.count("short_dense_runs_cut_off_as_planned" if base.get("dense") else "stopped_runs")
+    if base.get("dense"):
+        res.count("short_dense_runs")
     if mon.violation is not None:
         clause, detail = mon.violation
         res.violate(clause, ctx=base, **detail)
@@ -388,6 +392,8 @@ def run_case(case):
             "params": {str(k.value): v for k, v in extra.items()}, "seed": case["seed"]}
     quick = not case.get("thorough")
     dense = bool(case.get("fam"))
+    if dense:
+        base["dense"] = True
     mon = run_rewire(res, G, names, T, extra, seed=case["seed"], ctx=base, cap=(3000 if dense else 60000) if quick or dense else None,
                      stall=(1500 if dense else 15000) if quick or dense else 100000)
     fold_monitor(res, mon, base)
@@ -472,8 +478,9 @@ def run_case(case):
 def finalize(counters, sets, tier):
     out = {}
     inc = []
-    if counters.get("stopped_runs", 0) > 0.2 * max(1, counters.get("runs", 0)):
-        inc.append("more than 20%% of the runs hit the logical budget (%d of %d)" % (counters.get("stopped_runs", 0), counters.get("runs", 0)))
+    full_runs = max(1, counters.get("runs", 0) - counters.get("short_dense_runs", 0))
+    if counters.get("stopped_runs", 0) > 0.2 * full_runs:
+        inc.append("more than 20%% of the runs hit the logical budget (%d of %d)" % (counters.get("stopped_runs", 0), full_runs))
     if counters.get("accepted_swaps", 0) and not (counters.get("sig_K1", 0) + counters.get("sig_ideal", 0) + counters.get("sig_other", 0)):
         inc.append("swap_condition hook never classified a swap")
     if inc:
